@@ -160,7 +160,7 @@ def main(argv=None):
     for rep in reports:
         if rep.get("error"):
             err = rep["error"]
-            if err.startswith("unsupported") or err.startswith("path budget"):
+            if err.startswith("unsupported") or err.startswith("path budget") or err.startswith("contract out of date"):
                 # the function left the verifier's subset: bounded native run of the same contract
                 fb = run_bounded({"kind": "contract_search", "target": rep["target"],
                                   "contract_module": rep["contract_module"] or find_module(P, rep["target"]),
@@ -290,14 +290,17 @@ def main(argv=None):
         print(kl)
     print(f"{a.prop}: {n_dis}/{n_obl} obligations discharged over {len(functions)} functions and {len(lemma_out)} lemmas; "
           f"{n_excluded} excluded by known-finding regimes; bounded stand-ins: {len(bounded)}; wall {wall:.1f}s")
+    if vio_lines:
+        # a refuted obligation / a failing bounded run is reported even if something else went wrong in this run
+        for e in errors:
+            print("CHECKER-ERROR (in addition to the violations below):", e[:2000])
+        for v in vio_lines:
+            print(v)
+        return 1
     if errors:
         for e in errors:
             print("CHECKER-ERROR:", e[:2000])
         return 3
-    if vio_lines:
-        for v in vio_lines:
-            print(v)
-        return 1
     if undecided or fallback_notes:
         for r, o in undecided[:10]:
             print(f"UNDECIDED: {r['target']} {o['name']} path={o['path'][:6]}")
